@@ -666,3 +666,4 @@ def _r15_7(res, P, cfgname):
 LEVEL = LEVEL + ' Also (R15.4b) hand-written clone_from impls assign every field on every path, (R15.5) mirrored / ownership-variant sibling kernels agree, (R15.6) the rhs_sign factor of the shared add/sub kernels multiplies only rhs-derived values, (R19.2, shared) no step inside a debug assertion.'
 TECHNIQUE = 'sibling agreement over all operator impl bodies: canonical kernel signatures, effect summaries of assign forms, operand-order and pure-adapter rules, mirror comparison of sibling kernels, value-root dataflow for the sign factor, clone_from completeness'
 LEVEL = LEVEL + ' Also (R15.7) Context::max takes one context from each operand; (R17.7/R17.8, shared) Repr::clone_from.'
+LEVEL = LEVEL + ' (R01.5, shared) swap <=> negate in the shared signed kernel.'
